@@ -640,6 +640,48 @@ fn c16_typeconfusion(e: &Ent, t: &mut Tally) {
             }
         }
     }
+    // the same mutator registered more than once (`with_mutators` takes any list): the generator hands ONE snapshot of the
+    // emission to every instance in turn, so a later instance works on what an earlier one left. The contract is the same
+    // for the chain as a whole: bytes before the emission untouched, one complete value-pushing opcode of another kind
+    let chain: Vec<Box<dyn Mutator>> = (0..3).map(|_| Mk::Typeconfusion.kind().create(true)).collect();
+    for code in 0..=255u8 {
+        let Some(orig) = value_class(code) else { continue };
+        for prefix in [vec![], vec![0x80u8, 0x04, b'N']] {
+            for n in [2usize, 3] {
+                let emitted = sample_encoding(code);
+                let mut output = prefix.clone();
+                output.extend_from_slice(&emitted);
+                let snap = EmissionSnapshot { stack_depth: 0, output_len: prefix.len(), memo_size: 0, stack_delta: Vec::new(), output_delta: emitted.clone(), memo_delta: Vec::new() };
+                t.calls += n as u64;
+                let rj = json!({"kind":"typeconfusion","unsafe":true,"first_byte":code,"prefix_hex":lexer::hex(&prefix),"entropy":e.to_json(),"instances":n});
+                let r = with_source(e, |s| {
+                    let mut any = false;
+                    for m in chain.iter().take(n) {
+                        any |= m.post_process(&snap, &mut output, s, 1.0);
+                    }
+                    any
+                });
+                match r {
+                    Err(p) => t.bad("typeconfusion:chain:panic", format!("{n} type-confusion instances on one emission panicked for opcode 0x{code:02x} on {}: {p}", e.describe()), rj),
+                    Ok(false) => {}
+                    Ok(true) => {
+                        if output.len() < prefix.len() || output[..prefix.len()] != prefix[..] {
+                            t.bad("typeconfusion:chain:prefix-changed", format!("{n} instances: bytes before the emission changed for 0x{code:02x}: {}", lexer::hex(&output)), rj);
+                            continue;
+                        }
+                        let repl = &output[prefix.len()..];
+                        let one = !repl.is_empty() && matches!(lexer::lex_one(repl, 0), Ok(ref op) if op.end == repl.len());
+                        let newc = repl.first().and_then(|c| value_class(*c));
+                        if !one || newc.is_none() {
+                            t.bad("typeconfusion:chain:not-one-complete-value-opcode", format!("{n} instances: 0x{code:02x} replaced by {}", lexer::hex(repl)), rj);
+                        } else if newc == Some(orig) {
+                            t.bad("typeconfusion:chain:same-kind", format!("{n} instances: 0x{code:02x} ({orig}) ends as the same kind: {}", lexer::hex(repl)), rj);
+                        }
+                    }
+                }
+            }
+        }
+    }
     let _ = Kind::Any;
 }
 
